@@ -28,6 +28,7 @@ from repid import (BasicConverter, Connection, Depends, InMemoryBucketBroker, In
 from repid.data import PrioritiesT
 
 _depth = contextvars.ContextVar("bcall_depth", default=0)
+_cur_msg = contextvars.ContextVar("cur_msg", default=None)
 
 
 class PlannedError(Exception):
@@ -50,6 +51,19 @@ def policy_us(spec: dict, n: int) -> int:
     """The back-off policy as a pure function (the policy is an INPUT of the system, not code under
     test; the default factory itself is covered by C19)."""
     return td_us(make_policy(spec)(n))
+
+
+def _called_from_consumer() -> bool:
+    import sys
+    f = sys._getframe(2)
+    n = 0
+    while f is not None and n < 12:
+        fn = f.f_code.co_filename
+        if fn.endswith("consumer.py") and ("connections/redis" in fn or "connections/rabbitmq" in fn):
+            return True
+        f = f.f_back
+        n += 1
+    return False
 
 
 class WorkerRun:
@@ -106,6 +120,13 @@ class WorkerRun:
             def mk(orig=orig, name=name):
                 async def spy(key, payload="", params=None):
                     d = _depth.get()
+                    if d == 0 and _called_from_consumer():
+                        # the broker's own consumer dead-letters an expired message / gives back a prefetched one: not a
+                        # disposition made by the worker for a delivery
+                        self.ev("consumer_internal", op=name, id=key.id_)
+                        if name in ("requeue", "enqueue"):
+                            return await orig(key, payload, params)
+                        return await orig(key)
                     if d == 0:
                         self.ev("bcall", op=name, id=key.id_, params=None if params is None else params_sx(params),
                                 tried=None if params is None else params.retries.already_tried,
@@ -164,7 +185,7 @@ class WorkerRun:
                 k = self.store_calls
                 self.store_calls += 1
                 fails = fail_all or k in fail_at
-                self.ev("store", id=id_, k=k, success=getattr(payload, "success", None), data=getattr(payload, "data", None),
+                self.ev("store", id=id_, k=k, owner=_cur_msg.get(), success=getattr(payload, "success", None), data=getattr(payload, "data", None),
                         exception=getattr(payload, "exception", None), started=getattr(payload, "started_when", None),
                         finished=getattr(payload, "finished_when", None), ttl=td_us(getattr(payload, "ttl", None)),
                         fails=fails)
@@ -310,6 +331,11 @@ class WorkerRun:
                 super().__init__(*a, **kw)
                 me.runner = self
                 me.ev("runner_created")
+
+            async def process(self, actor, key, payload, parameters):
+                # remember which message this task (and the tasks it spawns) is working on: result stores are attributed by it
+                _cur_msg.set(key.id_)
+                return await super().process(actor, key, payload, parameters)
         rw._Runner = SpyRunner
         loop = asyncio.get_running_loop()
         self.cb0 = loop.cb_index
@@ -446,6 +472,8 @@ def deliveries(run: WorkerRun) -> list[dict]:
             # attribute the store to the job that owns this result id (latest delivery wins when shared)
             owners = [j["id"] for j in run.sc["jobs"] if j.get("result_id", "res-" + j["id"]) == e["id"] and j["id"] in cur]
             mid = max(owners, key=lambda i: cur[i]["t"]) if owners else None
+            if e.get("owner") in cur:
+                mid = e["owner"]          # the message the storing task was processing
             if mid in cur:
                 cur[mid]["stores"].append(bool(e["success"]))
                 cur[mid]["ran"].append([A("store"), bool(e["success"])])
